@@ -8,6 +8,7 @@ import (
 	"testing"
 	"time"
 
+	sdk "github.com/cosmos/cosmos-sdk/types"
 	"github.com/cosmos/cosmos-sdk/types/query"
 	"pgregory.net/rapid"
 
@@ -78,6 +79,9 @@ func c10CheckDeposit(w *l1World, st *l1Step, seqBefore uint64, preBal, postBal m
 	}
 	// what moved equals what was requested
 	sender := msg.Sender
+	if a, err := sdk.AccAddressFromBech32(sender); err == nil {
+		sender = a.String() // balances are looked up under the canonical spelling of the account
+	}
 	escrow := escrowAddr(msg.BridgeId).String()
 	preS, _ := parseCoins(preBal[sender])
 	postS, _ := parseCoins(postBal[sender])
